@@ -1529,3 +1529,54 @@ class AliasStates:
             if k not in env or "@" not in env or env[k] != env["@"]:
                 return False
         return True
+
+
+# ---------------------------------------------------------------------------------------------
+# The loop that drives one formula: FormulaEngine._run (`msg = await evaluator.apply()` ... `await sender.send(msg)`)
+ENGINE_CLS = "timeseries.formula_engine._formula_engine:FormulaEngine"
+
+
+class EngineLoop:
+    """FormulaEngine._run as one unit of behaviour (private helpers read in): the awaited `evaluator.apply()` of a
+    round (node `a`, call `apply`), the awaited `send(..)` calls (`sends`), and where an Exception raised by the
+    round goes (`exc_targets`: the successors of `a` along an Exception-family edge)."""
+
+    def __init__(self, prog: Program) -> None:
+        self.raw = prog.func(f"{ENGINE_CLS}._run")
+        self.fn = inline_all(prog, self.raw)
+        self.fl = fl = Flow(prog, self.fn)
+        self.cfg = cfg = fl.cfg
+        applies = [(nid, c) for nid, c in fl.calls(lambda c: isinstance(c.func, ast.Attribute) and c.func.attr == "apply"
+                                                   and not c.args and not c.keywords)
+                   if isinstance(fl._parent.get(id(c)), ast.Await)]
+        if len(applies) != 1:
+            raise AnalysisError(f"{self.raw.qual}: expected one awaited evaluator.apply(), found {len(applies)}")
+        self.a, self.apply = applies[0]
+        self.sends = [(nid, c) for nid, c in fl.calls(lambda c: isinstance(c.func, ast.Attribute) and c.func.attr == "send")
+                      if isinstance(fl._parent.get(id(c)), ast.Await)]
+        self.send_nodes = sorted({nid for nid, _c in self.sends})
+        self.exc_targets = [(m, lab) for m, lab in cfg.succ[self.a] if lab.startswith("exc:")]
+
+    def explicit(self, a: int, _b: int, lab: str) -> bool:
+        """Edge filter: normal control flow plus explicit `raise` statements (not "any call may raise")."""
+        return not lab.startswith("exc:") or isinstance(self.cfg.nodes[a].ast, ast.Raise)
+
+    def guarding_try(self) -> tuple[FuncInfo, ast.Try] | None:
+        """(function, try statement) of the raw source whose body holds the awaited apply(), for seeded controls."""
+        cls = self.raw.cls
+        holders = [self.raw] + ([m for m in cls.methods.values() if m.name in getattr(self.fn.node, "_inlined", ())] if cls else [])
+        for h in holders:
+            for t in ast.walk(h.node):
+                if isinstance(t, ast.Try) and any(isinstance(x, ast.Await) and isinstance(x.value, ast.Call)
+                                                  and isinstance(x.value.func, ast.Attribute) and x.value.func.attr == "apply"
+                                                  and not x.value.args for b in t.body for x in ast.walk(b)):
+                    return h, t
+        return None
+
+
+def engine_loop(prog: Program) -> EngineLoop:
+    hit = getattr(prog, "_engine_loop", None)
+    if hit is None:
+        hit = EngineLoop(prog)
+        prog._engine_loop = hit  # type: ignore[attr-defined]
+    return hit
